@@ -161,6 +161,9 @@ def run(rep, repo, tier):
     check_rank_lists(rep, repo)
     for k_, v_ in RULES_EXTRA.items():
         rep.rule(k_, v_)
+    # the per-rank criteria optimise EVERY rank of their range: the rank loop is left early only after a failed solve
+    from .c14 import typestate_check
+    typestate_check(rep, repo, 'C03.R1', [(False, False, [lpfacts.crit_config(n_, a_)]) for n_ in ('GENEROUS', 'GREEDY') for a_ in range(spec.CRITERIA[n_]['nextras'] + 1)])
     from .c16 import check_helper
     check_helper(rep, repo, repo.method('Options_parser', '_get_ordered_optimisations'), len(spec.CRITERIA), r1='C03.R6', r3='C03.R6', r6='C03.R6')
     # ... and they are still there, and still the criterion's own, when it runs: nothing on the solve path consumes the
